@@ -43,7 +43,7 @@ fn op_summary(o: &exec::OpRec) -> Value {
     })
 }
 
-fn build_trace(run: &RunState, events: &[sim::Ev]) -> Value {
+fn build_trace(run: &RunState, events: &[sim::Ev], io_fired: &[(u32, &'static str, u32)]) -> Value {
     let ops: Vec<Value> = run.ops.iter().map(op_summary).collect();
     let evs: Vec<Value> = events
         .iter()
@@ -75,7 +75,8 @@ fn build_trace(run: &RunState, events: &[sim::Ev]) -> Value {
                    "alias_target": s.alias_target, "other_index_names": s.extra_names, "image_ino": s.image_ino})
         })
         .collect();
-    json!({ "ops": ops, "events": evs, "event_format": ["seq", "task", "kind", "name", "op"], "disk_states": disk })
+    json!({ "ops": ops, "events": evs, "event_format": ["seq", "task", "kind", "name", "op"], "disk_states": disk,
+            "injected_io_errors": io_fired.iter().map(|f| json!({"event": f.0, "site": f.1, "op": if f.2 == u32::MAX { Value::Null } else { json!(f.2) }})).collect::<Vec<_>>() })
 }
 
 /// (a fault step landed inside an in-flight database operation,
@@ -222,6 +223,7 @@ impl C19 {
         stats.add("oracle.reuse_checked", ostats.reuse_checked);
         stats.add("oracle.hostile_checked", ostats.hostile_checked);
         stats.add("oracle.settle_gets", ostats.settle_gets);
+        stats.add("oracle.err_justified_by_injected_io_error", ostats.errs_justified_by_io_fault);
         stats.add("disk.snapshots", run.disk.snaps.len() as u64);
         // Mutations that did not apply (e.g. touching a name that is
         // currently a dangling symlink).
@@ -249,6 +251,21 @@ fn fault_key(kind: &str, landed: bool) -> &'static str {
         "retarget_alias",
         "dir_swap",
         "mtime_unavailable"
+    )
+}
+
+fn io_key(site: &str) -> &'static str {
+    macro_rules! k {
+        ($($n:literal),*) => {
+            match site {
+                $($n => concat!("fault.io_error.at.", $n),)*
+                _ => "fault.io_error.at.other",
+            }
+        };
+    }
+    k!(
+        "zi.new.open", "zi.new.read", "zi.walk.read_dir", "zi.walk.open", "fs.mtime.open",
+        "fs.mtime.metadata", "cc.new.open", "cc.names.open", "cc.read_at"
     )
 }
 
@@ -321,8 +338,15 @@ impl Prop for C19 {
             move || exec::run_case(c.clone(), root.clone()),
         );
         let run = exec::take_run();
-        let (events, fp, abort_site, clock) = sim::with_rt(|rt| {
-            (std::mem::take(&mut rt.events), rt.fp.0, rt.abort_site, rt.clock_ns)
+        let (events, fp, abort_site, clock, io_fired, io_asked) = sim::with_rt(|rt| {
+            (
+                std::mem::take(&mut rt.events),
+                rt.fp.0,
+                rt.abort_site,
+                rt.clock_ns,
+                std::mem::take(&mut rt.io_fired),
+                rt.io_asked,
+            )
         });
         let mut harness_error = out.escaped_panic.map(|m| format!("panic escaped the execution: {m}"));
         let Some(run) = run else {
@@ -341,7 +365,7 @@ impl Prop for C19 {
         let mut violations = vec![];
         let mut ostats = oracle::OracleStats::default();
         if harness_error.is_none() {
-            let mut o = oracle::Oracle::new(&run, &events);
+            let mut o = oracle::Oracle::new(&run, &events, &io_fired);
             // Testing aid (never set by the registered commands): ignore
             // some clauses to see which *other* clauses catch a change.
             let skip = std::env::var("JIFFSIM_SKIP_CLAUSES").unwrap_or_default();
@@ -364,11 +388,19 @@ impl Prop for C19 {
             stats.switches += out.switches;
             stats.sim_ns += clock as u128;
             self.collect_stats(stats, &run, &events, &ostats);
+            stats.add("fault.io_error.sites_asked", io_asked);
+            for f in io_fired.iter() {
+                stats.add("fault.io_error.injected", 1);
+                stats.add(io_key(f.1), 1);
+            }
+            if !io_fired.is_empty() {
+                stats.add("runs.with_io_error", 1);
+            }
         }
         let (landed, overlap) = classify(&run);
         let fingerprint = result_fingerprint(&run, fp);
         let trace = if want_trace || !violations.is_empty() {
-            build_trace(&run, &events)
+            build_trace(&run, &events, &io_fired)
         } else {
             Value::Null
         };
